@@ -209,8 +209,8 @@ CHECKS["C11"] = {
     "required_classes": {"all": ["batch:login-of-upgradeable-user-concurrent-with-mutation", "mode:local", "mode:", "free-running:local"]},
     "jobs": [
         J("linearizable", AGENT, "TestC11Linearizable", {"shards": 8, "checks": 40}, {"shards": 16, "checks": 1500}, toolchain="go126"),
-        J("freerunning", AGENT, "TestC11FreeRunning", {"shards": 2, "n": 16}, {"shards": 4, "n": 32}, toolchain="go126", rapid=False),
-        J("freerunning-race", AGENT, "TestC11FreeRunning", {"shards": 1, "n": 16}, {"shards": 2, "n": 24}, toolchain="go126", rapid=False, race=True, tiers=("thorough",)),
+        J("freerunning", AGENT, "TestC11FreeRunning|TestC11LoginThenChange", {"shards": 2, "n": 16}, {"shards": 4, "n": 32}, toolchain="go126", rapid=False),
+        J("freerunning-race", AGENT, "TestC11FreeRunning|TestC11LoginThenChange", {"shards": 1, "n": 16}, {"shards": 2, "n": 24}, toolchain="go126", rapid=False, race=True, tiers=("thorough",)),
     ],
 }
 
